@@ -449,18 +449,18 @@ pub(crate) fn run_scheduling_solver(
             let v_id = ResourceVariantId::new(0);
             let n_nodes = rqv.get(v_id).n_nodes() as usize;
             let mut ws: Vec<ThinVec<WorkerId>> = Vec::new();
+            // The workers of one task have to come from a single group
+            let mut partial: Map<&str, ThinVec<WorkerId>> = Map::new();
             for worker in &workers {
                 if let Some(v) = placements.get(&(worker.id, resource_rq_id, v_id)) {
                     let count = solution.get_value(*v).round() as u32;
                     if count > 0 {
-                        if let Some(last) = ws.last_mut()
-                            && last.len() < n_nodes
-                        {
-                            last.push(worker.id);
-                        } else {
-                            let mut workers = ThinVec::with_capacity(n_nodes);
-                            workers.push(worker.id);
-                            ws.push(workers);
+                        let p = partial
+                            .entry(worker.configuration.group.as_str())
+                            .or_default();
+                        p.push(worker.id);
+                        if p.len() == n_nodes {
+                            ws.push(std::mem::take(p));
                         }
                     }
                 }
